@@ -150,8 +150,13 @@ func (fr *Frame) libCall(i *ssa.Call, callee *ssa.Function, args []Val, st *Stat
 	case "reflect.TypeOf":
 		fr.regs[i] = TV{T: x.fresh("rtype", x.eng.tc.sortOf(i.Type()))}
 	case "encoding/json.Marshal":
-		use("JSON: json.Marshal returns arbitrary bytes or an error; calls MarshalJSON of the operands")
-		fr.regs[i] = Tuple{TV{T: x.fresh("json", SStr)}, TV{T: x.fresh("jerr", SErr)}}
+		use("JSON: json.Marshal returns arbitrary bytes or an error; calls MarshalJSON of the operands; the same value encodes to the same bytes")
+		if a := ts(0); a.Sort.Kind == KAny {
+			// a function of the encoded value (interface operands; struct operands stay opaque)
+			fr.regs[i] = Tuple{TV{T: mk(SStr, "json_bytes", a)}, TV{T: mk(SErr, "json_err", a)}}
+		} else {
+			fr.regs[i] = Tuple{TV{T: x.fresh("json", SStr)}, TV{T: x.fresh("jerr", SErr)}}
+		}
 	case "encoding/json.Unmarshal":
 		use("JSON: json.Unmarshal fills its target with an arbitrary value of the target's static type or returns an error")
 		fr.jsonUnmarshal(i, args, st, g)
